@@ -511,6 +511,9 @@ func (s *Seq) opSave(op *Op) {
 		if s.Prof.Scribble {
 			Scribble(o)
 		}
+		if op.Mode == "quiet" {
+			return // no further call: the next operation observes the disk only
+		}
 		s.lightReadsOf("after-save", []int{op.Lid})
 	} else {
 		if s.Prof.Scribble {
@@ -739,6 +742,11 @@ func (s *Seq) reopen(closeFirst bool, create bool) {
 	}
 	s.sinceReopen = 0
 	s.rejected = false
+	if s.curOp != nil && s.curOp.Mode == "quiet" {
+		// no call on the new handle: the next operation of the history is the first one
+		s.stat("reopen-quiet")
+		return
+	}
 	s.runPlan(plan, "reopen", "after-reopen")
 	s.smallSweep("reopen", "after-reopen")
 	for _, p := range s.M.ConsPaths() {
